@@ -123,22 +123,25 @@ def attach_forks(jobs, images_by_path, rng, max_per_run, cont_choice=None, expan
         job = byid[path.split("/")[0]]
         node = _node(job, path)
         node["expand"] = False
-        imgs = sorted(imgs, key=lambda im: json.dumps(im, sort_keys=True))
+        keyed = sorted(((json.dumps(im, sort_keys=True), im) for im in imgs), key=lambda t: t[0])
+        imgs = [t[1] for t in keyed]
         if len(imgs) > max_per_run:
             # stratify by crash point so that every I/O boundary keeps some images
             by_at = {}
-            for im in imgs:
-                by_at.setdefault(im["at"], []).append(im)
+            for i, im in enumerate(imgs):
+                by_at.setdefault(im["at"], []).append(i)
             quota = max(1, max_per_run // len(by_at))
             pick = []
             for at in sorted(by_at):
                 l = by_at[at]
                 rng.shuffle(l)
                 pick += l[:quota]
-            rest = [im for im in imgs if im not in pick]
+            chosen = set(pick)
+            rest = [i for i in range(len(imgs)) if i not in chosen]
             rng.shuffle(rest)
             pick += rest[:max(0, max_per_run - len(pick))]
-            imgs = pick[:max_per_run] if len(pick) > max_per_run else pick
+            pick = sorted(pick[:max_per_run])
+            imgs = [imgs[i] for i in pick]
         forks = []
         for k, im in enumerate(imgs):
             ch = {"at": im["at"], "keep": im["keep"], "len": im["len"], "creates": im["creates"],
@@ -200,15 +203,17 @@ def attribute(clause, ctx):
         return {"C05"}
     # crash family
     if clause == "Lost":
-        return {"C01"} | ({"C04"} if infl == "delete" else set())
+        return {"C01"} | ({"C04"} if (infl == "delete" or ctx.get("trunc")) else set())
     if clause in ("Fabricated", "Phantom", "Stale"):
         return {"C02"} | ({"C04"} if ctx.get("trunc") else set())
     if clause in ("FirstMismatch", "LastMismatch"):
         return {"C04"} if infl == "delete" else {"C01", "C02"}
     if clause in ("ReadError", "FirstError", "LastError"):
-        return {"C01", "C02"}
+        # an entry that must be present is unreadable; after a truncation this also means the
+        # truncation did not leave exactly the old or the new log (C04)
+        return {"C01", "C02"} | ({"C04"} if (infl == "delete" or ctx.get("trunc")) else set())
     if clause == "OpenFailed":
-        return {"C03", "C01"}
+        return {"C03", "C01"} | ({"C04"} if infl == "delete" else set())
     if clause in ("StoreRejectedLegal", "DeleteRejectedLegal", "CloseFailed", "Panic"):
         return {"C03"}
     if clause in ("StoreAcceptedIllegal", "DeleteAcceptedIllegal", "DurableDiverged"):
@@ -241,7 +246,7 @@ def classify(viols, obs_path):
     out = []
     for v in viols:
         job, fork, fam, tag, infl, ncrash, e = ctx[v["line"] - 1]
-        c = {"family": fam, "tag": tag, "inflight": infl, "ncrash": ncrash}
+        c = {"family": fam, "tag": tag, "inflight": infl, "ncrash": ncrash, "trunc": bool(v.get("trunc"))}
         # did this run contain a tail truncation? (cheap scan backwards to the reset)
         out.append({"line": v["line"], "clause": v["clause"], "job": job, "fork": fork, "family": fam,
                     "tag": tag, "inflight": infl, "ncrash": ncrash, "event": e,
@@ -312,26 +317,33 @@ class Engine:
             j["expand"] = True
             self.jobs_by_id[j["id"]] = j
         for lvl in range(depth):
+            t0 = time.time()
             obs, io, st = run_jobs(jobs, self.wd, "%s%d" % (tag, lvl), need_io=True)
+            t1 = time.time()
             by = expand_images(io, self.wd, max_exh=max_exh, nrandom=nrandom, stats=self.stats)
+            t2 = time.time()
             n = attach_forks(jobs, by, self.rng, per_run[min(lvl, len(per_run) - 1)],
                              expand_next=(expand_next if lvl + 1 < depth else 0))
-            log("level %d: %d runs expanded, %d images, %d forks attached" % (lvl, len(by), sum(map(len, by.values())), n))
+            log("level %d: %d runs expanded, %d images, %d forks attached (run %.1fs, tlc %.1fs, attach %.1fs)" % (
+                lvl, len(by), sum(map(len, by.values())), n, t1 - t0, t2 - t1, time.time() - t2))
         return self.final(list(jobs) + list(extra_final), tag)
 
     def final(self, jobs, tag="c"):
         for j in jobs:
             self.jobs_by_id[j["id"]] = j
+        t0 = time.time()
         obs, _, st = run_jobs(jobs, self.wd, tag + "final")
+        log("final run: %d forks, %d events in %.1fs" % (st["forks"], st["events"], time.time() - t0))
         self.forks += st["forks"]
         self.evals += st["runs"] + st["forks"]
         self.traces += st["runs"] + st["forks"]
         self.stats["events"] = self.stats.get("events", 0) + st["events"]
+        t0 = time.time()
         vs = judge(obs, self.wd, stats=self.stats)
+        log("judge: %.1fs, %d rejected observations" % (time.time() - t0, len(vs)))
         cl = classify(vs, obs)
         for c in cl:
             job = self.jobs_by_id[c["job"]]
-            c["_ctx"]["trunc"] = has_tail_trunc(job, c["fork"])
             c["props"] = sorted(attribute(c["clause"], c["_ctx"]))
             c["replay_job"] = prune_job(job, c["fork"])
         self.viols += cl
